@@ -28,7 +28,8 @@ Inductive case :=
 Definition msg_eqb (a b : msg) : bool :=
   bytes_eqb (signer a) (signer b) && (height a =? height b)%Z && (round a =? round b)%Z
   && kind_eqb (mkind a) (mkind b) && (vtype a =? vtype b) && (nid a =? nid b)
-  && bytes_eqb (hash a) (hash b) && (cost a =? cost b)%Z.
+  && bytes_eqb (hash a) (hash b) && (cost a =? cost b)%Z
+  && bytes_eqb (unsigned_ext a) (unsigned_ext b).
 
 Definition out_eqb (a b : option (msg * msg)) : bool :=
   match a, b with
